@@ -613,6 +613,21 @@ def run(ctx):
     r5.floor(3 + min(nacc, 2), "three tables + the table accessors")
 
 
+def _is_words_source(prog, n, depth=0):
+    """The table accessor of the dictionary, or an accessor of the data type built on it (`search_words(table, pattern)` = the table's words
+    that match): its answers are dictionary words."""
+    if n.endswith("get_words_for"):
+        return True
+    f = prog.fns.get(n)
+    if f is None or depth > 1 or not ((f.get("impl") or {}).get("self") or "").startswith("data::Data") or (f.get("impl") or {}).get("trait"):
+        return False
+    try:
+        ret = prog.body(n).expr_local(0)
+    except Exception:
+        return False
+    return contains_call(ret, lambda m: m != n and _is_words_source(prog, m, depth + 1)) is not None
+
+
 def classify_source(prog, p):
     item = p.item
     if item is None:
@@ -626,7 +641,7 @@ def classify_source(prog, p):
             recv = pb.expr_operand(t["args"][0])
             if contains_call(recv, lambda n: "get_emoji_by" in n):
                 return "emoji"
-            if contains_call(recv, lambda n: n.endswith("get_words_for")):
+            if contains_call(recv, lambda n: _is_words_source(prog, n)):
                 return "dictionary"
             from . import phonetic as _ph0
             if _ph0.is_autocorrect_value(prog, recv):
@@ -634,7 +649,7 @@ def classify_source(prog, p):
     from . import phonetic as _ph
     if _ph.is_autocorrect_value(prog, item):
         return "autocorrect"
-    if contains_call(item, lambda n: n.endswith("get_words_for")):
+    if contains_call(item, lambda n: _is_words_source(prog, n)):
         return "dictionary"
     pe = peel_conv(item)
     sp = self_path(pe)
